@@ -603,7 +603,12 @@ impl<'t, 'a> Gen<'t, 'a> {
             }
             7 => {
                 let o = self.ident();
-                let i = self.expr(d);
+                let i = if self.t.chance(30) {
+                    self.tag("computed-prototype-key");
+                    E::raw("\"prototype\"")
+                } else {
+                    self.expr(d)
+                };
                 self.tag("recv-index");
                 E::Index { obj: o.bx(), idx: i.bx(), optional: false }
             }
@@ -682,7 +687,13 @@ impl<'t, 'a> Gen<'t, 'a> {
             },
             // a?.[k].m(args)
             3 => {
-                let k = self.expr(d.min(1));
+                // the key may spell `prototype` as a string: `a?.['prototype'].m()`
+                let k = if self.t.chance(45) {
+                    self.tag("computed-prototype-key");
+                    E::raw("'prototype'")
+                } else {
+                    self.expr(d.min(1))
+                };
                 E::Call {
                     callee: E::Member { obj: E::Index { obj: base.bx(), idx: k.bx(), optional: true }.bx(), prop: m, optional: false }.bx(),
                     args,
